@@ -26,7 +26,7 @@ import sys
 import time
 import traceback
 
-CASE_TIMEOUT_S = int(os.environ.get("VERIF_CASE_TIMEOUT", "60"))
+CASE_TIMEOUT_S = int(os.environ.get("VERIF_CASE_TIMEOUT", "30"))
 MAX_VIOL_PER_SHARD = 40
 
 
@@ -52,15 +52,23 @@ class case_timer:
     """Per-case timer. A case that does not return is reported by the caller as a
     violation (a non-terminating predict satisfies no output property)."""
 
+    timeouts = 0  # per process; after 3 cases that did not return the remaining cases are not started any
+    # more (each is still recorded as a timeout violation), so that a change which makes a loop
+    # non-terminating is reported within minutes instead of hanging for hours
+
     def __init__(self, seconds=CASE_TIMEOUT_S):
         self.seconds = seconds
 
     def __enter__(self):
+        if case_timer.timeouts >= 3:
+            raise CaseTimeout("not started: three earlier cases in this worker did not return")
         signal.signal(signal.SIGALRM, _alarm)
-        signal.setitimer(signal.ITIMER_REAL, self.seconds)
+        signal.setitimer(signal.ITIMER_REAL, self.seconds if case_timer.timeouts == 0 else min(self.seconds, 10))
 
-    def __exit__(self, *a):
+    def __exit__(self, et, ev, tb):
         signal.setitimer(signal.ITIMER_REAL, 0)
+        if et is not None and issubclass(et, CaseTimeout):
+            case_timer.timeouts += 1
         return False
 
 
